@@ -354,7 +354,11 @@ def main(run, pid, uses_gen=True):
     genlock = open(os.path.join(CACHE, "genmode.lock"), "w")
     foreign = uses_gen and os.path.realpath(REPO) != "/repo"
     if uses_gen:
-        fcntl.flock(genlock, fcntl.LOCK_EX if foreign else fcntl.LOCK_SH)
+        # gate: a waiting exclusive run keeps the gate, so later shared runs queue behind it (no starvation)
+        with open(os.path.join(CACHE, "genmode.gate"), "w") as gate:
+            fcntl.flock(gate, fcntl.LOCK_EX)
+            fcntl.flock(genlock, fcntl.LOCK_EX if foreign else fcntl.LOCK_SH)
+            fcntl.flock(gate, fcntl.LOCK_UN)
     try:
         try:
             run(ctx)
